@@ -51,7 +51,7 @@ type vfC06Parsed struct {
 // vfC06Parse classifies an entry: IPv4 address -> A, IPv6 address -> AAAA,
 // "A"/"AAAA" -> exceptions, anything else -> canonical name.
 func vfC06Parse(e vfC06Entry) (p vfC06Parsed) {
-	p.pat = strings.ToLower(e.Domain)
+	p.pat = strings.TrimSuffix(strings.ToLower(e.Domain), ".")
 	if strings.HasPrefix(p.pat, "*.") && len(p.pat) > 2 {
 		p.wild = true
 		p.labels = strings.Split(p.pat[2:], ".")
